@@ -1,0 +1,13 @@
+//go:build verif
+
+// Contracts for package main, read by the /verif condition generator (govc).
+// Compiled only with -tags verif; adds no behaviour.
+package main
+
+// main: the values stamped into the binary at build time reach Execute untouched (C20: the
+// running version the updater compares against is the build's version); nothing recovers a
+// panic on the way out (directive in package cmd).
+//@ contract main
+//@   tags C20 C16
+//@   safety none
+//@   checks[C20] the-build-stamp-is-handed-over: called(Execute) && argOf(Execute, 0) == old(version) && argOf(Execute, 1) == old(commit) && argOf(Execute, 2) == old(date) && argOf(Execute, 3) == old(builtBy)
